@@ -227,6 +227,8 @@ class SLCDriver(CIPDriver):
             raise RequestError(f"Error parsing the tag passed to write() - {tag}")
 
         _tag["data_size"] = PCCC_DATA_SIZE[_tag["file_type"]]
+        # a bit write carries a single word: writeable_value adjusts data_size, so it has to run before the size is encoded
+        _value = writeable_value(_tag, value)
 
         message_request = [
             self._msg_start(),
@@ -239,7 +241,7 @@ class SLCDriver(CIPDriver):
             PCCC_DATA_TYPE[_tag["file_type"]],
             _address_field(_tag["element_number"]),
             _address_field(_tag.get("pos_number", 0)),
-            writeable_value(_tag, value),
+            _value,
         ]
         request = SendUnitDataRequestPacket(self._sequence)
         request.add(b"".join(message_request))
